@@ -36,7 +36,7 @@ def entryOkLrmMem (e : Entry) : Bool :=
   match e.rule.ops, e.kinds with
   | [f0, f1], [k0, _] =>
     !anyMemAlt f1 ||
-    ((e.enc == 0x4A || e.enc == 0x4D || e.enc == 0x14 || e.enc == 0x16 || e.enc == 0x21 || e.enc == 0x56) && (legCoreM e 0 &&
+    ((e.enc == 0x4A || e.enc == 0x4D || e.enc == 0x14 || e.enc == 0x16 || e.enc == 0x21 || e.enc == 0x56 || e.enc == 0x2c) && (legCoreM e 0 &&
     (f0.role == .reg && (f1.role == .rm && (plainKind k0 && (noFix f0 && formOpMatches e.rule.oszEff f0 (.reg k0 0)))))))
   | _, _ => false
 
@@ -44,7 +44,7 @@ def entryOkLmrMem (e : Entry) : Bool :=
   match e.rule.ops, e.kinds with
   | [f0, f1], [_, k1] =>
     !anyMemAlt f0 ||
-    ((e.enc == 0x17 || e.enc == 0x18 || e.enc == 0x56) && (legCoreM e 0 &&
+    ((e.enc == 0x17 || e.enc == 0x18 || e.enc == 0x56 || e.enc == 0x2c) && (legCoreM e 0 &&
     (f0.role == .rm && (f1.role == .reg && (plainKind k1 && (noFix f1 && formOpMatches e.rule.oszEff f1 (.reg k1 0)))))))
   | _, _ => false
 
@@ -363,5 +363,15 @@ theorem dispatch_set_r (c : Model.X86.Ctx) (row : Row) (k0 : RegKind) (i0 : Nat)
       emitX86R row.mainOp (fix1 k0 (r32 i0)).1 ((row.mainOp >>> 18) &&& 7#32) (fix1 k0 (r32 i0)).2 0 0 := by
   rcases hk with h | h <;> subst h <;>
     simp [dispatch, henc, sig3, Op.kind, Op.id, rtypeOf, fix1, fixK, fixupGpb, Op.isGp8Hi]
+
+/-- class X86Mov, control / debug register moves (64-bit mode: `mov r64, crN|drN`, `mov crN|drN, r64`): the entries are part of the `lmr` /
+`lrm` chunks (`finalOpLeg` = 0F 20 / 0F 21 / 0F 22 / 0F 23), so `front_cls_correct_lmr` / `front_cls_correct_lrm` cover them for ALL register
+numbers 0..15; this is the class switch -/
+theorem dispatch_mov_crdr (c : Model.X86.Ctx) (row : Row) (i0 i1 : Nat) (henc : row.encoding = 0x2c) (hm : c.mode64 = true) :
+    dispatch c row 0#32 (.reg (rtypeOf .gpq) i0) (.reg (rtypeOf .creg) i1) .none .none = emitX86R 0x120#32 0#32 (r32 i1) (r32 i0) 0 0 ∧
+    dispatch c row 0#32 (.reg (rtypeOf .gpq) i0) (.reg (rtypeOf .dreg) i1) .none .none = emitX86R 0x121#32 0#32 (r32 i1) (r32 i0) 0 0 ∧
+    dispatch c row 0#32 (.reg (rtypeOf .creg) i0) (.reg (rtypeOf .gpq) i1) .none .none = emitX86R 0x122#32 0#32 (r32 i0) (r32 i1) 0 0 ∧
+    dispatch c row 0#32 (.reg (rtypeOf .dreg) i0) (.reg (rtypeOf .gpq) i1) .none .none = emitX86R 0x123#32 0#32 (r32 i0) (r32 i1) 0 0 := by
+  refine ⟨?_, ?_, ?_, ?_⟩ <;> simp [dispatch, henc, sig3, Op.kind, Op.id, Op.isGp, rtypeOf, hm]
 
 end AsmjitVerif.Props.C01
